@@ -530,7 +530,21 @@ impl<'a> G<'a> {
             }
             // ---- tag on a struct
             9 => {
-                let mut it = self.valid_struct();
+                // any struct: plain named struct, or a struct whose container carries from / try_from-free conversion
+                let mut it = if self.chance(0.65) {
+                    self.valid_struct()
+                } else {
+                    let mut v = self.valid_via();
+                    // `try_from` + tag is its own cause (try_from+tag); keep `from` here
+                    Self::strip(&mut v.attrs, &["try_from"]);
+                    if !v.attrs.iter().flatten().any(|i| i.text.starts_with("from")) {
+                        v.attrs.push(vec![a(self.pick(&["from(String) = f_from", "from(&String) = f_from"]))]);
+                    }
+                    if self.chance(0.5) {
+                        v.body = Body::Struct(vec![CField { attrs: vec![], name: "alpha".into(), ty: "String".into(), poison: false }]);
+                    }
+                    v
+                };
                 let at = self.below(it.attrs.len() + 1);
                 let form = if at < it.attrs.len() && self.chance(0.5) {
                     it.attrs[at].push(px("tag = \"kind\""));
